@@ -31,7 +31,12 @@ EXTENDS Bytes, TLC
 CONSTANT Fixed     \* TRUE: sub-contexts forward the context touch (negative index) to the outer
                    \* context (the repaired code); FALSE: the touch is swallowed (negative control)
 
+CONSTANT SkipUnesc \* "none": the code.  Negative controls: "opt" - the optimising compiler returns a non-empty
+                   \* template without `{` as one literal stage as it stands, escapes unresolved (the plain
+                   \* compiler always runs the scanner); "noopt" - the same shortcut in the plain compiler only
+
 S == INSTANCE ExprScalar
+X == INSTANCE ExprSyntax      \* C09's syntax model: Unescape, SplitM (argSplitter.go), ErrText, CompileF
 
 \* ---------------------------------------------------------------- abstract values
 UNK    == <<0 - 1>>      \* outside the specified domain: nothing is demanded
@@ -135,24 +140,75 @@ NameB(f) ==
     [] f = "u4" -> <<117, 52>>
     [] f = "u5" -> <<117, 53>>
     [] f = "u6" -> <<117, 54>>
+    [] f = "u7" -> <<117, 55>>
+    [] f = "u8" -> <<117, 56>>
+    [] f = "u9" -> <<117, 57>>
 
 \* ---------------------------------------------------------------- printing (template text)
-\* Domain of the printer: literals inside arguments are non-empty words without blanks, quotes,
-\* braces or backslashes (an argument that is exactly the empty literal prints as "");
-\* top-level literals may contain single blanks.  (Escaping is C09's subject.)
-RECURSIVE TextT(_), TextN(_), TextArgs(_)
-\* a literal argument containing a blank is written in quotes
-TextArg(tpl) == LET s == TextT(tpl) IN
-                IF s = <<>> THEN <<34, 34>>
-                ELSE IF Len(tpl) = 1 /\ tpl[1].t = "lit" /\ \E i \in 1..Len(s) : s[i] = 32 THEN <<34>> \o s \o <<34>>
-                ELSE s
-TextArgs(args) == IF args = <<>> THEN <<>> ELSE <<32>> \o TextArg(args[1]) \o TextArgs(Tail(args))
-TextN(nd) ==
-  CASE nd.t = "lit" -> nd.v
-    [] nd.t = "grp" -> <<123>> \o Itoa(nd.n) \o <<125>>
-    [] nd.t = "key" -> <<123>> \o nd.v \o <<125>>
-    [] nd.t = "call" -> <<123>> \o NameB(nd.f) \o TextArgs(nd.args) \o <<125>>
-TextT(tpl) == IF tpl = <<>> THEN <<>> ELSE TextN(tpl[1]) \o TextT(Tail(tpl))
+(* The concrete text of a tree, escapes included.  A literal may hold any character.  The text  *)
+(* of an argument passes, from the outside in, through the escape scanner of the enclosing       *)
+(* Compile (`\x` -> unescape(x)), the argument splitter (`\x` -> x, quotes, blanks) and its own   *)
+(* Compile; every level is undone by its own escaping function.  To keep the levels apart the     *)
+(* printer works on TAGGED text: data characters are positive, structural characters (braces of  *)
+(* statements, names, separating blanks, quotes around an argument) negative and never escaped.  *)
+(* A style leaves the writer's free choices open:                                                 *)
+(*   q    "auto": an argument is quoted when it holds a blank, brace or quote; "always";          *)
+(*        "never": blanks/braces/quotes are backslash-escaped for the splitter instead             *)
+(*        (an empty argument is always "", an argument holding a quoted argument never quoted)     *)
+(*   ctl  how LF TAB CR are written: "deep": as \n \t \r at the literal's own level (so with      *)
+(*        1, 4, 16 backslashes at depth 0, 1, 2); "raw": as themselves; "top": as themselves      *)
+(*        inside, turned into \n \t \r in the final text (resolved by the outermost Compile)      *)
+(*   unk  needless ("unknown") escapes: \" \} \a \. at the literal's own level                    *)
+Sty(q, ctl, unk) == [q |-> q, ctl |-> ctl, unk |-> unk]
+DefSty == Sty("auto", "deep", FALSE)
+Styles == {Sty(q, ctl, unk) : q \in {"auto", "always", "never"}, ctl \in {"deep", "raw", "top"}, unk \in BOOLEAN}
+
+StrT(s) == [i \in 1..Len(s) |-> 0 - s[i]]                 \* structural text
+Untag(s) == [i \in 1..Len(s) |-> IF s[i] < 0 THEN 0 - s[i] ELSE s[i]]
+IsCtl(c) == c \in {9, 10, 13}
+CtlLetter(c) == IF c = 10 THEN 110 ELSE IF c = 9 THEN 116 ELSE 114
+IsBlankU(c) == c \in {9, 10, 11, 12, 13, 32}
+\* the literal's own level: what Compile must read to put the data character c into a literal stage
+E0C(c, sty) == IF c \in {92, 123} THEN <<92, c>>
+               ELSE IF IsCtl(c) /\ sty.ctl = "deep" THEN <<92, CtlLetter(c)>>
+               ELSE IF sty.unk /\ c \in {34, 125, 97, 46} THEN <<92, c>>
+               ELSE <<c>>
+\* an enclosing Compile (inside a statement): backslash and braces
+C1C(c) == IF c > 0 /\ c \in {92, 123, 125} THEN <<92, c>> ELSE <<c>>
+\* the splitter, inside quotes / outside quotes
+SQC(c) == IF c > 0 /\ c \in {92, 34} THEN <<92, c>> ELSE <<c>>
+SUC(c) == IF c > 0 /\ (c \in {92, 34, 123, 125} \/ IsBlankU(c)) THEN <<92, c>> ELSE <<c>>
+TopC(c) == IF c > 0 /\ IsCtl(c) THEN <<92, CtlLetter(c)>> ELSE <<c>>
+
+RECURSIVE MapE0(_, _), MapC1(_), MapSQ(_), MapSU(_), MapTop(_)
+MapE0(s, sty) == IF s = <<>> THEN <<>> ELSE E0C(s[1], sty) \o MapE0(Tail(s), sty)
+MapC1(s) == IF s = <<>> THEN <<>> ELSE C1C(s[1]) \o MapC1(Tail(s))
+MapSQ(s) == IF s = <<>> THEN <<>> ELSE SQC(s[1]) \o MapSQ(Tail(s))
+MapSU(s) == IF s = <<>> THEN <<>> ELSE SUC(s[1]) \o MapSU(Tail(s))
+MapTop(s) == IF s = <<>> THEN <<>> ELSE TopC(s[1]) \o MapTop(Tail(s))
+
+RECURSIVE PTpl(_, _), PNode(_, _), PArgs(_, _)
+PArg(arg, sty) ==
+  LET A == PTpl(arg, sty)
+      nestedQ == \E i \in 1..Len(A) : A[i] = 0 - 34
+      wantQ == sty.q = "always" \/ (sty.q = "auto" /\ \E i \in 1..Len(A) : A[i] > 0 /\ (IsBlankU(A[i]) \/ A[i] \in {34, 123, 125}))
+      B == IF A = <<>> \/ (wantQ /\ ~nestedQ) THEN <<0 - 34>> \o MapSQ(A) \o <<0 - 34>> ELSE MapSU(A)
+  IN MapC1(B)
+PArgs(args, sty) == IF args = <<>> THEN <<>> ELSE <<0 - 32>> \o PArg(args[1], sty) \o PArgs(Tail(args), sty)
+PNode(nd, sty) ==
+  CASE nd.t = "lit" -> MapE0(nd.v, sty)
+    [] nd.t = "grp" -> <<0 - 123>> \o StrT(Itoa(nd.n)) \o <<0 - 125>>
+    [] nd.t = "key" -> <<0 - 123>> \o StrT(nd.v) \o <<0 - 125>>
+    [] nd.t = "call" -> <<0 - 123>> \o StrT(NameB(nd.f)) \o PArgs(nd.args, sty) \o <<0 - 125>>
+PTpl(tpl, sty) == IF tpl = <<>> THEN <<>> ELSE PNode(tpl[1], sty) \o PTpl(Tail(tpl), sty)
+TextS(tpl, sty) == LET t == PTpl(tpl, sty) IN Untag(IF sty.ctl = "top" THEN MapTop(t) ELSE t)
+TextT(tpl) == TextS(tpl, DefSty)
+\* does the tree hold a character that needs an escape somewhere / only in top-level literals ?
+NeedsEsc(v) == \E i \in 1..Len(v) : v[i] \in {9, 10, 13, 34, 92, 123, 125}
+RECURSIVE EscInArgsT(_, _)
+EscInArgsN(nd, inarg) == IF nd.t = "lit" THEN inarg /\ NeedsEsc(nd.v)
+                         ELSE nd.t = "call" /\ \E i \in 1..Len(nd.args) : EscInArgsT(nd.args[i], TRUE)
+EscInArgsT(tpl, inarg) == \E i \in 1..Len(tpl) : EscInArgsN(tpl[i], inarg)
 
 \* ---------------------------------------------------------------- substitution (funcs-file call semantics)
 RECURSIVE SubstT(_, _), SubstN(_, _)
@@ -437,4 +493,85 @@ CompDefs(defs, k0, acc) ==
 
 \* the value the compiled expression yields: compiled at clock k0, evaluated at clock e
 Run(tpl, opt, c, k0, e, defs) == ExecT(CompT(tpl, opt, k0, CompDefs(defs, k0, <<>>)), c, e).v
+
+\* ================================================================= text level
+(* keyBuilder.go Compile as it reads a TEXT: the escape scanner (`\x` -> unescape(x), also inside  *)
+(* a statement; a lone trailing backslash stays), brace depth, the statement handed to the         *)
+(* argument splitter (X!SplitM = argSplitter.go), one argument = a key or match index, more = a    *)
+(* call whose arguments are compiled by Compile again (same compiler, so the same mode).           *)
+(* Resolving escapes is part of compilation in BOTH modes; `raw` is the negative control           *)
+(* (a template without `{` taken as a literal as it stands).                                       *)
+AllNames == {"sumi", "subi", "multi", "divi", "modi", "maxi", "mini", "sumf", "subf", "multf", "divf", "pow",
+             "sqrt", "floor", "ceil", "round", "eq", "neq", "not", "and", "or", "if", "unless",
+             "switch", "coalesce", "isint", "isnum", "lt", "gt", "lte", "gte", "len", "like",
+             "prefix", "suffix", "substr", "select", "upper", "lower", "format", "tab", "bucket",
+             "bucketrange", "clamp", "expbucket", "csv", "hi", "percent", "basename", "extname",
+             "time", "badlive", "classifylen", "name-of-func", "u1", "u2", "u3", "u4", "u5", "u6",
+             "u7", "u8", "u9"}      \* the domain of NameB
+NameOf(b) == IF \E f \in AllNames : NameB(f) = b THEN CHOOSE f \in AllNames : NameB(f) = b ELSE ""
+HasB(s, b) == \E i \in 1..Len(s) : s[i] = b
+ArgOf(t) == IF t = <<>> THEN <<Lit(<<>>)>> ELSE t                    \* joinStages of no stage: the empty literal
+
+RECURSIVE ParseT(_, _), PLoop(_, _, _, _, _, _)
+PStmt(sb, raw) ==
+  LET args == X!SplitM(sb) IN
+  IF Len(args) = 0 THEN <<>>                                          \* empty statement: an error, no stage
+  ELSE IF Len(args) = 1 THEN <<IF ParseIntOK(args[1]) THEN Grp(ParseIntVal(args[1])) ELSE Key(args[1])>>
+  ELSE LET f == NameOf(args[1]) IN
+       IF f = "" THEN <<Lit(X!ErrText(args[1]))>>
+       ELSE <<Call(f, [j \in 1..(Len(args) - 1) |-> ArgOf(ParseT(args[j + 1], raw))])>>
+PLoop(r, i, depth, sb, st, raw) ==
+  IF i > Len(r) THEN (IF sb # <<>> THEN Append(st, Lit(sb)) ELSE st)
+  ELSE LET c == r[i] IN
+    IF c = 92 THEN
+      IF i + 1 <= Len(r) THEN PLoop(r, i + 2, depth, Append(sb, X!Unescape(r[i + 1])), st, raw)
+      ELSE PLoop(r, i + 1, depth, Append(sb, 92), st, raw)
+    ELSE IF c = 123 THEN
+      IF depth = 0 THEN PLoop(r, i + 1, 1, <<>>, IF sb # <<>> THEN Append(st, Lit(sb)) ELSE st, raw)
+      ELSE PLoop(r, i + 1, depth + 1, Append(sb, c), st, raw)
+    ELSE IF c = 125 /\ depth > 0 THEN
+      IF depth = 1 THEN PLoop(r, i + 1, 0, <<>>, st \o PStmt(sb, raw), raw)
+      ELSE PLoop(r, i + 1, depth - 1, Append(sb, c), st, raw)
+    ELSE PLoop(r, i + 1, depth, Append(sb, c), st, raw)
+ParseT(r, raw) == IF raw /\ r # <<>> /\ ~HasB(r, 123) THEN <<Lit(r)>> ELSE PLoop(r, 1, 0, <<>>, <<>>, raw)
+
+RawIn(opt) == (SkipUnesc = "opt" /\ opt) \/ (SkipUnesc = "noopt" /\ ~opt)
+ReadT(text) == ParseT(text, FALSE)                                   \* the tree a text denotes
+CompTxt(text, opt, k0, cdefs) == CompT(ParseT(text, RawIn(opt)), opt, k0, cdefs)
+\* the loader: every body TEXT is compiled by the optimising compiler with the earlier definitions registered
+RECURSIVE CompDefsTxt(_, _, _)
+CompDefsTxt(dts, k0, acc) ==
+  IF dts = <<>> THEN acc
+  ELSE CompDefsTxt(Tail(dts), k0, Append(acc, [name |-> dts[1].name, body |-> CompTxt(dts[1].body, TRUE, k0, acc)]))
+
+\* normal form of a tree: adjacent literals are one literal, empty literals vanish, an argument
+\* without content is the empty literal (what reading a text can tell apart)
+RECURSIVE NormT(_, _), MergeLits(_, _)
+MergeLits(t, acc) ==
+  IF t = <<>> THEN acc
+  ELSE LET x == t[1] IN
+    IF x.t = "lit" /\ x.v = <<>> THEN MergeLits(Tail(t), acc)
+    ELSE IF x.t = "lit" /\ acc # <<>> /\ acc[Len(acc)].t = "lit"
+      THEN MergeLits(Tail(t), [acc EXCEPT ![Len(acc)] = Lit(acc[Len(acc)].v \o x.v)])
+    ELSE MergeLits(Tail(t), Append(acc, x))
+NormT(t, isarg) ==
+  LET m == MergeLits([i \in 1..Len(t) |->
+                        IF t[i].t = "call" THEN [t[i] EXCEPT !.args = [j \in 1..Len(t[i].args) |-> NormT(t[i].args[j], TRUE)]] ELSE t[i]], <<>>)
+  IN IF isarg THEN ArgOf(m) ELSE m
+RoundTrip(t, sty) == NormT(ReadT(TextS(t, sty)), FALSE) = NormT(t, FALSE)
+
+\* agreement with C09's parse model (X!CompileF under the table of all names): the same tree
+FtAll == [b \in {NameB(f) : f \in AllNames} |-> 0]
+RECURSIVE FromX(_)
+FromXArg(x) == IF x.k = "cat" THEN [j \in 1..Len(x.args) |-> FromX(x.args[j])] ELSE <<FromX(x)>>
+FromX(x) ==
+  CASE x.k = "lit" -> Lit(x.s)
+    [] x.k = "grp" -> Grp(x.n)
+    [] x.k = "key" -> Key(x.s)
+    [] x.k = "call" -> Call(NameOf(x.s), [j \in 1..Len(x.args) |-> FromXArg(x.args[j])])
+    [] OTHER -> Lit(<<>>)
+AgreesWithSyntaxP(text, rd) ==
+  LET p == X!CompileF(text, FtAll) IN
+  NormT([j \in 1..Len(p.st) |-> FromX(p.st[j])], FALSE) = NormT(rd, FALSE)
+AgreesWithSyntax(text) == AgreesWithSyntaxP(text, ReadT(text))
 =============================================================================
